@@ -135,6 +135,8 @@ type LScenario struct {
 	Buf     int    `json:"buf"`
 	SlowCb  bool   `json:"slowCb"`  // the application's incoming callback takes time (pipeline backs up)
 	Partial bool   `json:"partial"` // the cause hits inside an inbound message
+	Cause2  string `json:"cause2"`  // a second cause shortly after the first ("" = none): overlapping terminations
+	GapMs   int    `json:"gapMs"`   // delay between the two causes
 }
 
 type LifeObs struct {
@@ -330,6 +332,29 @@ func RunLifecycle(t *testing.T, sc *LScenario, emit func(*LifeObs)) {
 			go func() {
 				defer sendersWg.Done()
 				_ = s.Send(fixgen.NewMarketDataRequest().SetMDReqID("x"))
+			}()
+		}
+		fire := func(cause string) {
+			switch cause {
+			case "peer_close":
+				conn.in <- inEvent{err: io.EOF}
+			case "peer_reset":
+				conn.in <- inEvent{err: errors.New("read tcp: connection reset by peer")}
+			case "local_close":
+				if ini != nil {
+					ini.Close()
+				} else {
+					acc.Close()
+				}
+			case "handler_stop":
+				h.Stop()
+			}
+		}
+		if sc.Cause2 != "" {
+			defer func() {}()
+			go func() {
+				time.Sleep(time.Duration(sc.GapMs) * time.Millisecond)
+				fire(sc.Cause2)
 			}()
 		}
 		// the cause
